@@ -25,6 +25,7 @@
 #include <netinet/in.h>
 
 #include <unistd.h>
+#include <fcntl.h>
 
 #ifndef VH_WRAPALLOC
 #define VH_WRAPALLOC
@@ -198,6 +199,67 @@ leakvisit(void * p, size_t n, void * cookie)
 	}
 }
 
+static uint64_t n_fd0;
+
+#ifdef WITH_HTTPS
+static int hf_ncb;
+
+static int
+hf_cb(void * cookie, struct http_response * r)
+{
+
+	(void)cookie;
+	(void)r;
+	hf_ncb++;
+	return (0);
+}
+
+static int
+refuse_connect(int fd, const struct sockaddr * sa, socklen_t len)
+{
+
+	(void)fd; (void)sa; (void)len;
+	errno = ECONNREFUSED;
+	return (-1);
+}
+
+/* One https_request whose connection is refused, before any plain request. */
+static void
+https_first(void)
+{
+	struct http_header hd[1] = { { "Host", "example.org" } };
+	struct http_request req = { "GET", "/", 1, hd, 0, NULL };
+	struct sock_addr sa, * sas[2];
+	struct sockaddr_in sin;
+	int i, dummy0;
+
+	if ((dummy0 = open("/dev/null", O_RDONLY)) != 0)
+		vh_die("descriptor 0 was not free");
+	simk_reset(4242);
+	memset(&sin, 0, sizeof(sin));
+	sin.sin_family = AF_INET;
+	sin.sin_port = htons(443);
+	sin.sin_addr.s_addr = htonl(0x7f000001);
+	sa.ai_family = AF_INET;
+	sa.ai_socktype = SOCK_STREAM;
+	sa.name = (struct sockaddr *)&sin;
+	sa.namelen = sizeof(sin);
+	sas[0] = &sa;
+	sas[1] = NULL;
+	simk_connect_hook = refuse_connect;
+	if (https_request(sas, &req, 1000, hf_cb, NULL, "example.org") == NULL)
+		vh_die("https_request refused");
+	for (i = 0; i < 1000 && hf_ncb == 0; i++)
+		if (events_run())
+			break;
+	if (hf_ncb != 1)
+		vh_die("https_request with a refused connection: %d callbacks", hf_ncb);
+	simk_connect_hook = NULL;
+	simk_reset(1);
+	close(0);
+}
+#endif
+
 int
 main(int argc, char ** argv)
 {
@@ -205,9 +267,37 @@ main(int argc, char ** argv)
 	int leakcheck = (argc > 1 && strcmp(argv[1], "leakcheck") == 0);
 	uint64_t caseno = 0;
 
+	FILE * inf;
+	int infd, httpsfirst = 0, ai;
+
+	for (ai = 1; ai < argc; ai++)
+		if (strcmp(argv[ai], "httpsfirst") == 0)
+			httpsfirst = 1;
 	crcinit();
 	vh_stdout_linebuf();
-	while (vh_readline(&L, stdin)) {
+	/*
+	 * Descriptor 0 is given up (the case lines are read through a
+	 * descriptor >= 100): a process may well run with stdin closed, and
+	 * then the first socket it creates is descriptor 0.  One case in four
+	 * leaves 0 free so that the connection's socket gets it; the others
+	 * occupy it for the duration of the case.
+	 */
+	if ((infd = fcntl(0, F_DUPFD, 100)) < 0 || (inf = fdopen(infd, "r")) == NULL)
+		vh_die("cannot move stdin");
+	close(0);
+#ifdef WITH_HTTPS
+	/*
+	 * In this mode the process has used https_request() before (an attempt
+	 * whose connection is refused): plain requests made afterwards must not
+	 * be affected by whatever that left behind.
+	 */
+	if (httpsfirst)
+		https_first();
+#else
+	if (httpsfirst)
+		vh_die("built without https");
+#endif
+	while (vh_readline(&L, inf)) {
 		size_t t = 1, nh, i, plen, rblen, resplen, nchunks = 0;
 		size_t limit;
 		int cancel_after, segmode, outmode, endmode, connmode, early;
@@ -231,6 +321,8 @@ main(int argc, char ** argv)
 		size_t * chunks = NULL;
 		uint8_t * sent = NULL;
 		size_t sentlen = 0;
+		char * methbuf;
+		int fd0case, fd0dummy = -1;
 
 		if (L.ntok == 0)
 			continue;
@@ -287,8 +379,18 @@ main(int argc, char ** argv)
 		livebefore = wa_live_count();
 		seqbefore = wa_total_allocs();
 
+		/* Is descriptor 0 free for the library's socket in this case? */
+		fd0case = ((segseed >> 7) % 4 == 0);
+		if (!fd0case) {
+			if ((fd0dummy = open("/dev/null", O_RDONLY)) != 0)
+				vh_die("descriptor 0 was not free (got %d)", fd0dummy);
+		} else
+			n_fd0++;
+
 		/* The request. */
-		req.method = method;
+		methbuf = vh_xmalloc(strlen(method) + 1);
+		memcpy(methbuf, method, strlen(method) + 1);
+		req.method = methbuf;
 		req.path = (char *)path;
 		req.nheaders = nh;
 		req.headers = hdrs;
@@ -324,8 +426,20 @@ main(int argc, char ** argv)
 		}
 		memset(hdrs, 0x5a, (nh + 1) * sizeof(*hdrs));
 		memset(path, 'P', plen);
+		memset(methbuf, 'M', strlen(methbuf));
 		memset(&req, 0x5a, sizeof(req));
 		hdrs_scribbled = 1;
+		/* ... and given back to the allocator (ASan then sees any later use). */
+		for (i = 0; i < 2 * nh; i++) {
+			vh_free(hptrs[i]);
+			hptrs[i] = NULL;
+		}
+		vh_free(hdrs);
+		hdrs = NULL;
+		vh_free(path);
+		path = NULL;
+		vh_free(methbuf);
+		methbuf = NULL;
 		if (c == NULL) {
 			printf("R ncb=%d resp=0 status=0 nh=0 hdrs=- blen=0 bcrc=0 bnull=1 "
 			    "sentlen=0 sentcrc=0 sent=- leak=0 pending=0 viol=request:refused\n", got.ncb);
@@ -490,6 +604,8 @@ main(int argc, char ** argv)
 		}
 cleanup:
 		simk_reset(1);
+		if (fd0dummy == 0)
+			close(0);
 		vh_free(got.hdrs);
 		got.hdrs = NULL;
 		for (i = 0; i < 2 * nh; i++)
